@@ -283,10 +283,12 @@ fn cli_sample(rt: &Runtime, rep: &mut StageReport) -> Vec<(serde_json::Value, St
     let mut viol = Vec::new();
     let mut rng = Rng(rt.seed ^ 0xC11);
     let per_file = if rt.tier == Tier::Thorough { 40 } else { 10 };
-    for f in &files {
+    for (fi, f) in files.iter().enumerate() {
         let len = f.bytes.len();
         let mut done = 0;
         let mut attempts = 0;
+        // a different valid table, stored as the intact sibling "<name>.skf" of suffix-less damaged files
+        let other = &files[(fi + 1) % files.len()];
         while done < per_file && attempts < per_file * 20 {
             attempts += 1;
             let fault = if attempts % 2 == 0 { Fault::Truncate((rng.next() % len as u64) as usize) } else { Fault::Flip((rng.next() % (len as u64 * 8)) as usize) };
@@ -297,13 +299,23 @@ fn cli_sample(rt: &Runtime, rep: &mut StageReport) -> Vec<(serde_json::Value, St
             let bare = attempts % 4 < 2;
             let dname = if bare { "d" } else { "d.skf" };
             if bare {
-                std::fs::write(dir.join("d.skf"), &f.bytes).unwrap();
+                std::fs::write(dir.join("d.skf"), &other.bytes).unwrap();
             }
             let p = dir.join(dname);
             std::fs::write(&p, &data).unwrap();
-            if load_sig(&cli::p(&p)).is_some() {
-                ctx.done(&dir);
-                continue; // accepted-identical class: the CLI legitimately succeeds
+            match load_sig(&cli::p(&p)) {
+                Some(sig) if sig == f.sig => {
+                    ctx.done(&dir);
+                    continue; // accepted-identical class: the CLI legitimately succeeds
+                }
+                Some(sig) => {
+                    if viol.len() < 4 {
+                        viol.push((json!({"file": f.name, "fault": format!("{fault:?}"), "stored_as": dname}), format!("{} damaged by {fault:?} and stored as {dname:?}: accepted with different content: {}", f.name, crate::engine::truncate(&sig, 200))));
+                    }
+                    ctx.done(&dir);
+                    continue;
+                }
+                None => {}
             }
             std::fs::write(dir.join("good.skf"), &f.bytes).unwrap();
             cli::write_fasta_auto(&dir.join("ref.fa"), &[crate::gen::filler(63, 1)], None);
@@ -363,7 +375,7 @@ fn stages(_tier: Tier) -> Vec<Box<dyn Stage>> {
         ),
         enum_stage(
             "cli",
-            "sample of damaged files that the loader rejects, each (half of them named without the .skf suffix next to an intact <name>.skf) through nk, align, map, distance, merge (as first and as second input), delete, weed, lo: non-zero exit, damaged input byte-identical afterwards, no non-empty output file",
+            "sample of damaged files that the loader rejects, each (half of them named without the .skf suffix next to an intact <name>.skf that holds a different table) through nk, align, map, distance, merge (as first and as second input), delete, weed, lo: non-zero exit, damaged input byte-identical afterwards, no non-empty output file",
             cli_sample,
         ),
     ]
